@@ -243,6 +243,7 @@ struct Node
         Alt
     } t;
     char ch = 0;
+    bool bare = false; // Alt only: render as a|b without a group (top level of the pattern)
     std::string set;
     std::vector<Node> a, b; // Star/Plus/Opt: a = body; Alt: a | b
 };
@@ -391,6 +392,12 @@ render_seq(const Seq& p, std::string& out)
                 out += n.t == Node::Star ? '*' : n.t == Node::Plus ? '+' : '?';
                 break;
             case Node::Alt:
+                if (n.bare && p.size() == 1) {
+                    render_seq(n.a, out);
+                    out += '|';
+                    render_seq(n.b, out);
+                    break;
+                }
                 out += "(?:";
                 render_seq(n.a, out);
                 out += '|';
@@ -863,6 +870,28 @@ vh_run(const VhTok* tape, size_t n, VhReport* rep)
                             break;
                         }
                         default: break;
+                    }
+                }
+                if ((h >> 40) % 4 == 0 && !x.en.empty()) {
+                    // top-level alternation without a group: "<pattern so far>|<piece of another name>".
+                    // '|' binds loosest, so this is still a whole-name match of either branch.
+                    const Enumerated& other = x.en[(h >> 44) % x.en.size()];
+                    std::string piece = other.name;
+                    if (piece.size() > 1) {
+                        size_t cut = 1 + (h >> 50) % (piece.size() - 1);
+                        piece = ((h >> 43) & 1) ? piece.substr(cut) : piece.substr(0, cut); // a proper suffix or prefix
+                    }
+                    if (!piece.empty()) {
+                        Node alt;
+                        alt.t = Node::Alt;
+                        alt.bare = true;
+                        alt.a = p;
+                        alt.b = literal_seq(piece);
+                        if ((h >> 42) & 1)
+                            std::swap(alt.a, alt.b);
+                        p.clear();
+                        p.push_back(alt);
+                        has_meta = true;
                     }
                 }
                 std::string pat;
